@@ -13,6 +13,7 @@ pub mod c12;
 pub mod c13;
 pub mod c14;
 pub mod c15;
+pub mod c16;
 pub mod c17;
 pub mod c18;
 pub mod c19;
@@ -44,6 +45,7 @@ pub fn run(prop: &str, tier: Tier, only: Option<(String, String)>) -> i32 {
         "C13" => c13::run(&mk("fault_enumeration")),
         "C14" => c14::run(&mk("model_checking")),
         "C15" => c15::run(&mk("exploration")),
+        "C16" => c16::run(&mk("model_checking")),
         "C17" => c17::run(&mk("model_checking")),
         "C18" => c18::run(&mk("exploration")),
         "C19" => c19::run(&mk("model_checking")),
